@@ -51,8 +51,9 @@ def write_evidence(eng, prop, tier, seed, reports, obs, verdicts, status, known_
         seen.add(o.oid)
         samples.append({"obligation": o.oid, "kind": o.kind, "path": o.path_sig[-200:], "assumptions": len(o.assumptions),
                         "goal": str(o.goal)[:300], "verdict": v.verdict, "solver": v.solver, "seconds": round(v.seconds, 4)})
-    n_obl = len(status)
-    n_dis = sum(1 for s in status.values() if s == "proved")
+    kf_oids = {k["oid"] for k in known_hits if not k["oid"].startswith("bounded:")}
+    n_obl = len([o for o in status if o not in kf_oids])
+    n_dis = sum(1 for o, s in status.items() if s == "proved" and o not in kf_oids)
     anchors = eng.anchor_coverage(prop) if hasattr(eng, "anchor_coverage") else {}
     ev = {
         "property_id": prop, "tier": tier, "seed": seed, "level": "proof",
@@ -63,6 +64,8 @@ def write_evidence(eng, prop, tier, seed, reports, obs, verdicts, status, known_
                              "Lean 4.33 + Mathlib for spec/OptyxSpec.lean"],
             "samples": samples,
             "obligation_instances": len(obs),
+            "obligations_generated_total": len(status),
+            "obligations_refuted_and_listed_in_known_findings": len(kf_oids),
             "refuted_listed_as_known_findings": sorted({k["oid"] for k in known_hits}),
             "functions_under_contract": funcs,
             "functions_with_trusted_contract": trusted,
@@ -74,7 +77,8 @@ def write_evidence(eng, prop, tier, seed, reports, obs, verdicts, status, known_
             "bounded": [{k: v for k, v in b.items() if k != "failures"} | {"failures": len(b.get("failures", []))} for b in bounded],
             "undecided": undecided[:50],
             "source_digest": eng.src.digest.hexdigest(),
-            "explanation": "obligations are spec-indexed (function / spec case / clause); an obligation is discharged when every "
+            "explanation": "`obligations` counts the generated obligations that are not listed known findings (those are reported "
+                           "separately above, with their ids, and are *refuted*, not discharged); obligations are spec-indexed (function / spec case / clause); an obligation is discharged when every "
                            "path instance of it is unsat-checked by z3 (cvc5 on z3's unknowns; both in the thorough tier). "
                            "bounded entries are never counted in obligations/discharged.",
         },
